@@ -128,6 +128,13 @@ def build_inputs(tier):
         cases.append(("table", s, "exec", None))
         cases.append(("table", "ok = 1\n\n" + s, "exec", None))
         cases.append(("table", s + "\nlater = 2\n", "exec", None))
+    # literals whose EVALUATION fails (the error is raised from literal_eval's own SyntaxError / ValueError): the integer
+    # conversion limit, with the literal first on its physical line, inside brackets, after other code
+    big = "7" * 4400
+    for s in [big + "\n", "x = " + big + "\n", "f(1,\n" + big + ")\n", "y = [\n    " + big + ",\n 2]\n", "if a:\n    " + big + "\n", big + " + 1\n", "-" + big + "\n", "x = 0x" + "f" * 10 + " + " + big + "\n"]:
+        cases.append(("literal-eval-error", s, "exec", None))
+        cases.append(("literal-eval-error", "ok = 1\n" + s, "exec", None))
+    cases.append(("literal-eval-error", big, "eval", None))
     # eval mode with leading blanks: positions and text must describe the caller's text, not a stripped copy
     for e in ["", "#c", "\n", " ", "\t\n"]:
         cases.append(("eval-empty", e, "eval", None))
